@@ -19,7 +19,21 @@ def run(c):
     digests = set()
     import time, re
     t0 = time.time()
+    clock = {"last": None}
     def judge(text, impl, aux):
+        # every query reads the clock anew: the exact seconds since 2000 never stand still from one query to the next
+        if aux and aux.get("k") == "reset":
+            clock["last"] = None
+        if aux and aux.get("k") == "q" and text.strip() == "(now - #2000-01-01 00:00:00 +00:00#)/s" and impl.startswith("number "):
+            from fractions import Fraction
+            try:
+                v = Fraction(impl.split(" ")[1])
+            except (ValueError, ZeroDivisionError):
+                v = None
+            if v is not None:
+                if clock["last"] is not None and v <= clock["last"]:
+                    return "the clock did not advance between two queries of one session: `now` is %s s after 2000 both times" % float(v)
+                clock["last"] = v
         if aux and aux.get("k") == "digest":
             digests.add(impl)
             if len(digests) > 1:
@@ -70,6 +84,11 @@ def run(c):
         if a["k"] == "reset":
             ans = None; hist = []; dead = False
         elif a["k"] == "q" and dead:
+            continue
+        elif a["k"] == "q" and re.search(r"\bnow\b", a["text"]):
+            # what `now` denotes differs between the session and the later fresh run: not comparable, and neither is
+            # anything that follows in the session (`ans` may hold a clock reading)
+            dead = True
             continue
         elif a["k"] == "q":
             lines.append("reset")
